@@ -51,4 +51,4 @@ def check(run):
 
 
 def replay(run, rp):
-    raise NotImplementedError
+    c01.replay_world(run, rp, rp["sig"].get("check", "c05"))
